@@ -1,0 +1,23 @@
+//go:build !verif
+// +build !verif
+
+package simdjson
+
+const (
+	verifEvPath = iota
+	verifEvAcquire
+	verifEvStrip
+	verifEvSend
+	verifEvTerm
+	verifEvRelease
+	verifEvRecv
+	verifEvStage2Exit
+	verifEvChunkQueued
+	verifEvChunkParsed
+)
+
+func verifEvent(ev int, pj *internalParsedJson, a, b uint64, buf *[indexSize]uint32) {}
+
+func verifB2U(b bool) uint64 { return 0 }
+
+func verifAddr(b []byte) uint64 { return 0 }
